@@ -53,10 +53,6 @@ package ipfshttp
 //@   records lastDecodeErr = err
 //@   modifies *v
 
-// assumed: this package calls Err() only after the context's Done() channel fired, where it is non-nil
-//@ extern context.Context.Err()
-//@   ensures err != nil
-
 // "successful only if the daemon ends up holding that CID": the pin/add conversation counts as successful only when the
 // progress stream ended cleanly (the decoder reported io.EOF - not a dropped or garbled stream) and the request was
 // not cancelled meanwhile
